@@ -21,6 +21,14 @@ theorem extracted_guards :
     attestChecksContiguity = true ∧ tallyCalled = true ∧ tallyRequiresNotObserved = true ∧ tallyRequiresNextNonce = true ∧
     fallbackLastObservedMinusOne = true ∧ claimRequiresOnline = true ∧ 0 < maxKeepEventSize := by decide
 
+/-- what `TryAttestation` does once the bar is reached, and what the handler does with a deferred claim: the last observed
+nonce is set unconditionally (not only when the handler succeeds), the attestation is stored as observed, the handler runs
+through `processAttestation`, the vote loop is left, and send-to-fx / bridge-call / bridge-call-result claims are only
+parked at observation time (their effects run in `ExecuteClaim` alone) -/
+theorem extracted_observation_shape :
+    observeSetsLastObserved = true ∧ observeMarksObserved = true ∧ observeRunsHandler = true ∧ observeBreaksLoop = true ∧
+    deferredClaimsOnlyParked = true := by decide
+
 /-! ## 1. the last observed nonce advances by exactly one; no gaps -/
 
 /-- one step moves `lastObserved` by 0 or by exactly 1 — for every state and every operation -/
@@ -53,10 +61,10 @@ theorem lastObserved_step (s : State) (op : Op) :
   | unbond o u bal d => exact Or.inl (core _ (unbond_core s o u bal d))
   | gov l d => exact Or.inl (core _ (gov_core s l d).1)
   | endBlock l r => exact Or.inl (core _ (endBlock_core s l r).1)
-  | exec n f =>
-    simp only [step]; unfold execStep
-    repeat' split
-    all_goals exact Or.inl rfl
+  | exec n o c =>
+    simp only [step]
+    obtain ⟨P, L, h⟩ := exec_frame s n o c
+    rw [h]; exact Or.inl rfl
 
 /-- the nonces of the observation log are exactly 1, 2, …, lastObserved, in this order: every history applies event
 nonces one at a time, in increasing order, without gaps -/
@@ -67,6 +75,20 @@ theorem observedLog_contiguous (p : Params) (ops : List Op) :
 /-- an event nonce is applied at most once (over all competing claims for it) -/
 theorem observed_nonce_applied_once (p : Params) (ops : List Op) : ((reach p ops).observedLog.map Prod.fst).Nodup := by
   rw [observedLog_contiguous]; exact List.nodup_range'
+
+/-- what has taken effect stays in effect: the observation log of any history is a prefix of the log of every extension
+of that history (an applied event nonce is never re-applied, re-ordered or replaced by a competing claim later) -/
+theorem observedLog_only_grows (p : Params) (ops more : List Op) :
+    (reach p ops).observedLog <+: (reach p (ops ++ more)).observedLog := by
+  obtain ⟨⟨l, h⟩, _⟩ := logs_run (reach p ops) more
+  exact ⟨l, by simp only [reach, run_append]; exact h.symm⟩
+
+/-- the same for deferred executions: from one operation to the next the execution log only grows (roll-backs of failing
+or refunded nested calls stay inside the operation that made them) -/
+theorem executedLog_only_grows (p : Params) (ops more : List Op) :
+    (reach p ops).executedLog <+: (reach p (ops ++ more)).executedLog := by
+  obtain ⟨_, ⟨l, h⟩⟩ := logs_run (reach p ops) more
+  exact ⟨l, by simp only [reach, run_append]; exact h.symm⟩
 
 /-! ## 2. at most one observed attestation per nonce -/
 
@@ -137,11 +159,11 @@ theorem lastNonce_monotone (s : State) (op : Op) (hk : Op.keepsLastNonce op = tr
     exact ⟨v, Nat.le_refl _, by simp only [step]; rw [unbond_lastNonce s o' u bal d hk']; exact hv⟩
   | gov l d => exact ⟨v, Nat.le_refl _, by simp only [step]; rw [(gov_core s l d).2]; exact hv⟩
   | endBlock l r => exact ⟨v, Nat.le_refl _, by simp only [step]; rw [(endBlock_core s l r).2]; exact hv⟩
-  | exec n f =>
+  | exec n o c =>
     refine ⟨v, Nat.le_refl _, ?_⟩
-    simp only [step]; unfold execStep
-    repeat' split
-    all_goals exact hv
+    simp only [step]
+    obtain ⟨P, L, h⟩ := exec_frame s n o c
+    rw [h]; exact hv
 
 /-- the hypothesis of the partial theorems: the tree keeps the per-oracle last nonce on unbond, or the history contains
 no unbond → re-bond of one oracle address (`noRebond`: no `BondedOracle` targets an oracle whose key an earlier
@@ -164,6 +186,32 @@ theorem oracle_vote_once_partial (p : Params) (ops : List Op) (hops : NoRebond p
       (∃ v, (reach p ops).lastNonce.get o = some v ∧ a.nonce ≤ v) ∨ o ∈ (reach p ops).retired) := by
   have := vinv_reach p ops hops
   exact ⟨this.v2.1, this.v2.2, this.v1⟩
+
+/-- on a tree whose `UnbondedOracle` keeps the per-oracle last nonce nothing is ever retired -/
+theorem retired_reach (hk : unbondDeletesLastNonce = false) (p : Params) (ops : List Op) : (reach p ops).retired = [] := by
+  have : ∀ (s : State), s.retired = [] → (run s ops).retired = [] := by
+    induction ops with
+    | nil => intro s h; exact h
+    | cons op r ih => intro s h; exact ih _ (retired_step s op hk h)
+  exact this _ rfl
+
+/-- FULL STRENGTH (no hypothesis on the history; holds because the extractor reads that `UnbondedOracle` keeps
+`LastEventNonceByOracle` — the repair `fix: an oracle that bonds again cannot vote twice…`; if the deletion comes back this
+stops checking and `oracle_vote_once_false` applies).  In every reachable state — all interleavings of claims with
+competing hashes, bond, add-delegate, edit-bridger, slashing end blocks, governance updates, unbond, RE-BOND, (re-entrant)
+deferred execution — no vote list has a duplicate, an oracle has voted for at most one claim hash per nonce, and every
+vote sits at a nonce not above the voter's stored last nonce. -/
+theorem oracle_vote_once (p : Params) (ops : List Op) :
+    (∀ a ∈ (reach p ops).atts, a.votes.Nodup) ∧
+    (∀ a ∈ (reach p ops).atts, ∀ b ∈ (reach p ops).atts, ∀ o, a.nonce = b.nonce → o ∈ a.votes → o ∈ b.votes → a.hash = b.hash) ∧
+    (∀ a ∈ (reach p ops).atts, ∀ o ∈ a.votes, ∃ v, (reach p ops).lastNonce.get o = some v ∧ a.nonce ≤ v) := by
+  have hk : unbondDeletesLastNonce = false := by decide
+  obtain ⟨h1, h2, h3⟩ := oracle_vote_once_partial p ops (Or.inl hk)
+  refine ⟨h1, h2, ?_⟩
+  intro a ha o ho
+  rcases h3 a ha o ho with h | h
+  · exact h
+  · rw [retired_reach hk] at h; cases h
 
 /-- the history of DESIGN §6-H: oracle 1 votes for nonce 1, is removed by governance, unbonds (its last nonce is deleted),
 is listed again, bonds again and — through the absent-key fallback — votes for nonce 1 a second time -/
@@ -209,17 +257,109 @@ theorem pending_executes_once (p : Params) (ops : List Op) :
     have := hI.pendR n hn
     simp only [List.mem_range'_1, reach] at this ⊢; omega
 
-/-- a failing deferred execution leaves the whole state as it was (the entry deleted before the handler ran is restored),
-and a nonce that is not parked cannot be executed -/
-theorem exec_failure_restores (s : State) (n : Nat) : (step s (.exec n true)).1 = s := by
+/-- what the source says about `ExecuteClaim`: it looks the parked claim up and returns an error when there is none, it
+deletes the parked entry unconditionally, the deletion comes BEFORE every statement that calls a handler, and the
+precompile runs it inside a native action that is reverted when it returns an error.  `pending_executes_once` depends on
+this order (through `inv_exec`); with the deletion after the handler it is false, see `delete_after_handler_runs_twice`. -/
+theorem extracted_exec_order :
+    execChecksPending = true ∧ execDeletesPending = true ∧ execDeletesBeforeHandler = true ∧
+    execErrorRevertsNativeAction = true := by decide
+
+/-- the effects of every event nonce are in force at most once, in every reachable state (the form the harness measures on
+the real state after every operation: field `ex=`) -/
+theorem effects_at_most_once (p : Params) (ops : List Op) (n : Nat) : (reach p ops).executedLog.count n ≤ 1 := by
+  have hn := (pending_executes_once p ops).1
+  generalize (reach p ops).executedLog = l at hn
+  induction l with
+  | nil => simp
+  | cons x r ih =>
+    rw [List.nodup_cons] at hn
+    by_cases hx : x = n
+    · subst hx
+      have : List.count x r = 0 := List.count_eq_zero.mpr hn.1
+      simp [this]
+    · have := ih hn.2
+      simp [List.count_cons, hx]; exact this
+
+/-- a call without nested calls is the familiar atomic step: the parked entry is consumed and the effects are logged once -/
+theorem exec_leaf_ok (s : State) (n : Nat) (hp : n ∈ s.pending) :
+    step s (.exec n .ok .nil) =
+      ({ s with pending := s.pending.filter (fun m => m != n), executedLog := s.executedLog ++ [n] }, .ok) := by
+  simp [step, execStep, execCalls, execCallsWith, delPending, hp, execChecksPending, execDeletesPending, execDeletesBeforeHandler]
+
+/-- a failing deferred execution leaves the whole state as it was (the entry deleted before the handler ran is restored
+together with everything the calls made from inside the handler did) — for EVERY forest of nested calls -/
+theorem exec_failure_restores (s : State) (n : Nat) (inner : Calls) : (step s (.exec n .fail inner)).1 = s := by
   simp only [step]; unfold execStep
   repeat' split
   all_goals first | rfl | simp_all
 
-theorem exec_needs_pending (s : State) (n : Nat) (f : Bool) (hok : (step s (.exec n f)).2 = .ok) : n ∈ s.pending := by
+theorem exec_needs_pending (s : State) (n : Nat) (o : Outcome) (inner : Calls) (hok : (step s (.exec n o inner)).2 = .ok) :
+    n ∈ s.pending := by
   simp only [step] at hok; unfold execStep at hok
-  repeat' split at hok
-  all_goals simp_all
+  have hc : execChecksPending = true := by decide
+  simp only [hc, Bool.true_and] at hok
+  split at hok
+  · simp at hok
+  · rename_i h; simpa using h
+
+/-- RE-ENTRANCY.  A call for a nonce that is not parked does nothing — whatever its outcome and whatever it would have
+called — and the calls after it proceed from the unchanged state. -/
+theorem call_not_parked_noop (df : Bool) (p : Px) (n : Nat) (o : Outcome) (inner next : Calls) (hn : n ∉ p.pending) :
+    execCallsWith df p (.call n o inner next) = execCallsWith df p next := by
+  have hc : execChecksPending = true := by decide
+  rw [execCallsWith]
+  simp [hc, hn]
+
+/-- In the order of the source (entry deleted before the handler runs) no forest of calls ever parks a nonce: a nonce
+that is not parked stays not parked through every nested / failing / refunded call. -/
+theorem not_parked_stays (p : Px) (c : Calls) (n : Nat) (hn : n ∉ p.pending) : n ∉ (execCallsWith true p c).pending :=
+  fun h => hn (execCalls_pending_subset c p n h)
+
+/-- a deferred execution that does not fail CONSUMES the parked claim — whatever the called-back contracts did in between
+(re-entered the same nonce, executed and rolled back other claims, reverted): afterwards the nonce is not parked any more
+and its effects are in the log, so by `pending_executes_once` they can never run again -/
+theorem exec_ok_consumes (s : State) (n : Nat) (o : Outcome) (inner : Calls) (hok : (step s (.exec n o inner)).2 = .ok) :
+    n ∉ (step s (.exec n o inner)).1.pending ∧ n ∈ (step s (.exec n o inner)).1.executedLog := by
+  have hp := exec_needs_pending s n o inner hok
+  have hc : execChecksPending = true := by decide
+  have hdf : execDeletesBeforeHandler = true := by decide
+  have hd : execDeletesPending = true := by decide
+  simp only [step] at hok ⊢
+  unfold execStep at hok ⊢
+  have hcont : s.pending.contains n = true := by simpa using hp
+  simp only [hc, hcont, Bool.true_and, Bool.not_true] at hok ⊢
+  cases o with
+  | fail => simp at hok
+  | refund =>
+    simp only [execCalls, execCallsWith, hc, hcont, Bool.true_and, Bool.not_true]
+    exact ⟨not_mem_delPending hd _ _, by simp⟩
+  | ok =>
+    simp only [execCalls, hdf]
+    rw [execCallsWith]
+    simp only [hc, hcont, Bool.true_and, Bool.not_true, execCallsWith]
+    constructor
+    · exact not_parked_stays _ inner n (not_mem_delPending hd _ _)
+    · obtain ⟨l, hl⟩ := execCalls_log_extends true inner { pending := delPending s.pending n, log := s.executedLog ++ [n] }
+      simp at hl ⊢
+      rw [hl]; simp
+
+/-- Hence, while the handler of nonce `n` is running, EVERY `executeClaim(n)` issued from inside it — directly by the
+called-back contract or at any depth below, before or after other nested executions, refunds or failures — finds
+nothing and has no effect: after any forest `c1` the re-entrant call is skipped. -/
+theorem reentrant_call_has_no_effect (p : Px) (n : Nat) (hp : n ∈ p.pending) (c1 : Calls) (o : Outcome) (inner next : Calls) :
+    let entered : Px := { pending := delPending p.pending n, log := p.log ++ [n] }
+    let mid := execCallsWith true entered c1
+    execCallsWith true mid (.call n o inner next) = execCallsWith true mid next := by
+  intro entered mid
+  refine call_not_parked_noop true mid n o inner next ?_
+  exact not_parked_stays entered c1 n (not_mem_delPending (by decide) _ _)
+
+/-- the order matters: with the parked entry deleted AFTER the handler (as in `execCallsWith false`) a contract that calls
+`executeClaim(1)` from inside the handler of nonce 1 makes the effects of nonce 1 run twice -/
+theorem delete_after_handler_runs_twice (h1 : execChecksPending = true) (h2 : execDeletesPending = true) :
+    (execCallsWith false { pending := [1], log := [] } (.call 1 .ok (.call 1 .ok .nil .nil) .nil)).log = [1, 1] := by
+  revert h1 h2; decide
 
 /-! ## 5. only the bridger of an online registered oracle gets a claim accepted -/
 
@@ -241,7 +381,7 @@ def demo : List Op :=
     .claim 102 102 1 1 .pending 1001,       -- competing hash for nonce 1
     .claim 101 101 2 0 .other 1002,         -- oracle 1 is ahead: nonce 2 gets a vote before nonce 1 is observed
     .claim 103 103 1 0 .pending 1001,       -- 34 + 33 = 67 ≥ 66: nonce 1 observed
-    .exec 1 true, .exec 1 false, .exec 1 false,
+    .exec 1 .fail .nil, .exec 1 .ok (.call 1 .ok .nil .nil), .exec 1 .ok .nil,
     .claim 102 102 2 0 .other 1002,         -- 33 + 34 ≥ 66: nonce 2 observed
     .claim 103 103 2 0 .other 1002 ]        -- vote for an already observed attestation
 
@@ -252,5 +392,11 @@ example : NoRebond witnessParams demo := Or.inr (by decide)
 example (h : unbondDeletesLastNonce = true) : ¬ noRebond (init witnessParams) rebondWitness = true := by revert h; decide
 example : (reach witnessParams demo).atts.map (fun a => (a.nonce, a.hash, a.votes, a.observed)) =
     [(1, 0, [1, 3], true), (1, 1, [2], false), (2, 0, [1, 2, 3], true)] := by decide
+
+/-- nested executions: nonces 1..3 parked; executing 1 calls back a contract that re-enters 1 (nothing), executes 2 —
+whose contract executes 3 and then reverts (3 is parked again, 2 is consumed with a refund) — and executes 3 again -/
+example : execCallsWith true { pending := [1, 2, 3], log := [] }
+    (.call 1 .ok (.call 1 .ok .nil (.call 2 .refund (.call 3 .ok .nil .nil) (.call 3 .ok .nil .nil))) .nil) =
+    { pending := [], log := [1, 2, 3] } := by decide
 
 end FxVerif.Props.C01
